@@ -62,9 +62,9 @@ func TestC34(t *testing.T) {
 	for i := 0; i < 4; i++ {
 		topo.Nodes = append(topo.Nodes, sim.NodeSpec{Name: fmt.Sprintf("n%d", i), Pod: "pa", Cores: 16, Memory: 64 << 30, Up: true})
 	}
-	rounds := env.Pick(3, 8)
-	workers := env.Pick(16, 32)
-	opsPerWorker := env.Pick(25, 60)
+	rounds := env.Pick(3, 6)
+	workers := env.Pick(16, 24)
+	opsPerWorker := env.Pick(25, 50)
 	var maxInflight, inflight int64
 
 	for round := 0; round < rounds; round++ {
